@@ -170,6 +170,7 @@ void Encoder::clearEncodingMetadata(bool clearSequenceCounter)
     bytesLeft = 0;
     cmpFrames.clear();
     cmpFrameTemplate.clear();
+    messageType = CmpHeader::MessageType::undefined;
 
     if (clearSequenceCounter)
         sequenceCounter = 0;
